@@ -127,8 +127,9 @@ def serDirectory (n : Nat) (ents : List DirEnt) : Bytes :=
 -- thread list
 def DThread.stackLen (t : DThread) : Nat := match t.stack with | some (_, b) => b.length | none => 0
 def DThread.windowLen (t : DThread) : Nat := match t.window with | some (_, b) => b.length | none => 0
-def DThread.blob (t : DThread) : Bytes :=
-  (match t.stack with | some (_, b) => b | none => []) ++ (match t.window with | some (_, b) => b | none => []) ++ t.ctx
+def DThread.stackBytes (t : DThread) : Bytes := match t.stack with | some (_, b) => b | none => []
+def DThread.windowBytes (t : DThread) : Bytes := match t.window with | some (_, b) => b | none => []
+def DThread.blob (t : DThread) : Bytes := t.stackBytes ++ t.windowBytes ++ t.ctx
 def DThread.ctxRva (t : DThread) (pos : Nat) : Nat := pos + t.stackLen + t.windowLen
 
 /-- MDRawThread of a thread whose blobs start at `pos` -/
